@@ -172,14 +172,23 @@ func (env *Zlisp) comparePair(a *SexpPair, b Sexp) (int, error) {
 		errmsg := fmt.Sprintf("err 96: cannot compare %T to %T", a, b)
 		return 0, errors.New(errmsg)
 	}
-	res, err := env.Compare(a.Head, bp.Head)
-	if err != nil {
-		return 0, err
+	// walk along the tails in a loop: only the nesting of the heads counts
+	// against the depth guard of Compare, not the length of the list
+	for {
+		res, err := env.Compare(a.Head, bp.Head)
+		if err != nil {
+			return 0, err
+		}
+		if res != 0 {
+			return res, nil
+		}
+		at, aIsPair := a.Tail.(*SexpPair)
+		bt, bIsPair := bp.Tail.(*SexpPair)
+		if !aIsPair || !bIsPair {
+			return env.Compare(a.Tail, bp.Tail)
+		}
+		a, bp = at, bt
 	}
-	if res != 0 {
-		return res, nil
-	}
-	return env.Compare(a.Tail, bp.Tail)
 }
 
 func (env *Zlisp) compareArray(a *SexpArray, b Sexp) (int, error) {
